@@ -1,29 +1,69 @@
-"""C04 — simulator lifecycle: commands, states and notifications follow the protocol.
+"""C04 - simulator lifecycle: commands, states and notifications follow the protocol.
 
-Sequential part (M1): random and bounded-exhaustive command sequences issued at
-quiescence plus commands issued from inside handlers, on the real simulators
-and on Sim.Model; oracle = documented accept/refuse table, "refused changes
-nothing", the notification-stream monitor, ENDED absorbing, thread termination.
-The overlap part (M2, two-thread transition system) lives in Sim/Overlap.v and
-is checked by its theorems plus forced-interleaving scenarios (c04_overlap.py).
+Proof part: Sim/Lifecycle*.v (M1: every command list, over Sim/Model.v's own
+command semantics) and Sim/Overlap*.v (M2: two-thread transition system, closed
+reachable sets), collected in Props/C04.v.
+
+Tie to /repo, on every run:
+ (C1) command sequences issued at *strict* quiescence on the real DEVS
+      simulators (harness/c04_impl.py): all sequences up to a length over a
+      9-command alphabet on a fixed model, plus random long sequences on
+      generated models whose handlers issue commands themselves.  Outcome,
+      both states, clock, pending count, live run threads and the notifications
+      of every command are compared with M1 inside coqc (Lifecycle.lcase_code).
+ (C2) forced interleavings: listeners / handlers act as gates that hold the run
+      thread (or the command thread) at a chosen point while the overlapping
+      command is issued; the quiescent outcome must be one M2 allows for a
+      command issued while the run thread is at that point
+      (Overlap.overlap_allows).
+Oracle (independent of the Coq models): the accept/refuse rules, "refused
+changes nothing", a monitor automaton over the implementation's own stream, the
+state invariants at quiescence and run-thread accounting - written out below
+in Python; it classifies disagreements and is what searches for and shrinks a
+failing command sequence.
 """
 from __future__ import annotations
 
 import itertools
 import json
 import random
+import subprocess
 import sys
+import time
+from concurrent.futures import ThreadPoolExecutor
 from pathlib import Path
 
 sys.path.insert(0, str(Path(__file__).resolve().parent))
 import common as C
-import simlib as S
-import c02
 
 PID = "C04"
+DRIVER = Path(__file__).resolve().parent / "c04_impl.py"
+TARGETS = ["Sim/LifecycleProofs.vo", "Sim/OverlapProofs.vo", "Props/C04.vo"]
+CLOCKS = ["float", "int", "dur"]
+PRIOS = [5, 5, 5, 1, 10, 3, 7]
+QUIET_RS = ("NOT_INITIALIZED", "INITIALIZED", "STOPPED", "ENDED")
+
+
+# ============================================================================ case generation
+def unit_of(clock):
+    return 4 if clock == "int" else 1
+
 
 SMALL_PROG = [[["sched", ["now"], 5, 1], ["sched", ["abs", 8], 5, 2], ["sched", ["abs", 8], 7, 2]],
-              [["sched", ["rel", 4], 5, 1]], []]
+              [["sched", ["rel", 4], 5, 2]], []]
+
+
+def scale_prog(prog, u):
+    out = []
+    for body in prog:
+        nb = []
+        for a in body:
+            if a[0] == "sched" and len(a[1]) > 1 and a[1][1] != "nan":
+                nb.append(["sched", [a[1][0], a[1][1] * u], a[2], a[3]])
+            else:
+                nb.append(json.loads(json.dumps(a)))
+        out.append(nb)
+    return out
 
 
 def alphabet(u):
@@ -31,61 +71,126 @@ def alphabet(u):
             ["runuptoincl", 8 * u], ["endrepl"], ["cleanup"]]
 
 
-def gen_case(rng: random.Random, i: int) -> dict:
-    clock = S.CLOCKS[i % len(S.CLOCKS)]
-    u = S.unit_of(clock)
-    prog = S.gen_program(rng, clock, p_illegal=0.04, p_cancel=0.06, p_cmd=0.25, max_events=60)
-    if i % 50 == 3:      # stop() from a handler: 1 s each
-        hs = [h for h in range(1, len(prog)) if prog[h]]
-        if hs:
-            h = rng.choice(hs)
-            # commands issued after stop() in the same handler fall into the STOPPING window: overlap model, not here
-            prog[h] = [a for a in prog[h] if a[0] != "cmd"]
-            prog[h].insert(0, ["cmd", ["stop"]])
-    n = rng.randint(2, 9)
+def exhaustive_cases(tier):
+    """ALL command sequences up to the length bound over the 9-command alphabet."""
+    out = []
+    maxlen = 3 if tier == "quick" else 5
+    for clock in (["float"] if tier == "quick" else ["float", "int"]):
+        u = unit_of(clock)
+        prog = scale_prog(SMALL_PROG, u)
+        al = alphabet(u)
+        top = maxlen if clock == "float" else 4
+        for ln in range(1, top + 1):
+            for seq in itertools.product(al, repeat=ln):
+                out.append({"kind": "seq", "clock": clock, "strategy": "pause", "prog": prog,
+                            "cmds": [list(c) for c in seq], "src": "exhaustive"})
+    return out
+
+
+def gen_prog(rng, clock, allow_stop):
+    u = unit_of(clock)
+    n = rng.randint(2, 5)
+    prog = [[] for _ in range(n + 1)]
+    for h in range(0, n + 1):
+        nacts = rng.randint(1, 4) if h == 0 else rng.randint(0, 2)
+        for _ in range(nacts):
+            r = rng.random()
+            if r < 0.06:
+                mode = rng.choice([["rel", -u], ["rel", "nan"], ["abs", -u * rng.randint(1, 4)], ["abs", "nan"]])
+                prog[h].append(["sched", mode, rng.choice(PRIOS), rng.randint(1, n)])
+            elif r < 0.14:
+                prog[h].append(["cancel", rng.randint(0, 6)])
+            elif h < n:
+                child = rng.randint(h + 1, n)
+                m = rng.random()
+                if m < 0.2:
+                    mode = ["now"]
+                elif m < 0.7:
+                    mode = ["rel", u * rng.choice([0, 1, 1, 2, 3, 4, 8])]
+                else:
+                    mode = ["abs", u * rng.randint(0, 40)]
+                prog[h].append(["sched", mode, rng.choice(PRIOS), child])
+        if h >= 1 and rng.random() < 0.3:
+            c = rng.choice([["start"], ["step"], ["runupto", u * rng.randint(0, 40)],
+                            ["runuptoincl", u * rng.randint(0, 40)], ["initbad"], ["init", 0, 0, 40 * u],
+                            ["start"], ["step"]])
+            prog[h].insert(rng.randint(0, len(prog[h])), ["cmd", c])
+        if h >= 1 and rng.random() < 0.08:
+            prog[h].insert(rng.randint(0, len(prog[h])), ["fail"])
+    if allow_stop:
+        h = rng.randint(1, n)
+        # a command issued after stop() in the same handler falls into the STOPPING window: overlap, not here
+        prog[h] = [a for a in prog[h] if a[0] != "cmd"] + [["cmd", ["stop"]]]
+    return prog
+
+
+def gen_repl(rng, clock):
+    u = unit_of(clock)
+    start = rng.choice([0, 0, 0, 8 * u])
+    length = u * rng.randint(2, 40)
+    w = rng.random()
+    warm = start if w < 0.15 else (start + u * rng.randint(0, length // u) if w < 0.85 else start + length + u * rng.randint(0, 3))
+    return ["init", start, warm, start + length]
+
+
+def gen_random_case(rng, i, allow_stop):
+    clock = CLOCKS[i % len(CLOCKS)]
+    u = unit_of(clock)
+    prog = gen_prog(rng, clock, allow_stop)
+    n = rng.randint(4, 22)
     cmds = []
     t = 0
     for j in range(n):
         r = rng.random()
-        if j == 0 and r < 0.8:
-            cmds.append(S.gen_repl(rng, clock)); continue
-        if r < 0.12:
-            cmds.append(S.gen_repl(rng, clock))
-        elif r < 0.17:
+        if j == 0 and r < 0.85:
+            cmds.append(gen_repl(rng, clock)); t = cmds[-1][1]; continue
+        if r < 0.10:
+            cmds.append(gen_repl(rng, clock)); t = cmds[-1][1]
+        elif r < 0.14:
             cmds.append(["initbad"])
-        elif r < 0.37:
+        elif r < 0.30:
             cmds.append(["start"])
-        elif r < 0.57:
+        elif r < 0.55:
             cmds.append(["step"])
-        elif r < 0.64:
+        elif r < 0.62:
             cmds.append(["stop"])
-        elif r < 0.84:
+        elif r < 0.86:
             t += u * rng.choice([0, 1, 2, 3, 5, 8])
-            tt = "nan" if rng.random() < 0.04 else t
+            tt = "nan" if rng.random() < 0.04 else (t - u * rng.randint(1, 9) if rng.random() < 0.1 else t)
             cmds.append(["runupto" if rng.random() < 0.5 else "runuptoincl", tt])
-        elif r < 0.92:
+        elif r < 0.93:
             cmds.append(["endrepl"])
         else:
             cmds.append(["cleanup"])
-    return {"clock": clock, "strategy": rng.choice(["pause", "log"]), "prog": prog, "cmds": cmds}
+    return {"kind": "seq", "clock": clock, "strategy": rng.choice(["pause", "log", "warn"]), "prog": prog,
+            "cmds": cmds, "src": "random"}
 
 
-def extra_cases(tier):
-    out = []
-    maxlen = 3 if tier == "quick" else 4
-    for clock in (["float"] if tier == "quick" else ["float", "int"]):
-        u = S.unit_of(clock)
-        prog = [[[a[0], ([a[1][0], a[1][1] * u] if len(a[1]) > 1 else a[1]), a[2], a[3]] for a in body] for body in SMALL_PROG]
-        al = alphabet(u)
-        for ln in range(1, maxlen + 1):
-            for seq in itertools.product(al, repeat=ln):
-                out.append({"clock": clock, "strategy": "pause", "prog": prog, "cmds": [list(c) for c in seq]})
-    return out
+# ============================================================================ running the implementation
+def run_impl(cases, nproc=12, timeout=1200):
+    if not cases:
+        return []
+    nproc = max(1, min(nproc, len(cases)))
+    chunks = [cases[i::nproc] for i in range(nproc)]
+
+    def one(chunk):
+        p = subprocess.run([C.PY, str(DRIVER)], input=json.dumps(chunk), capture_output=True, text=True,
+                           timeout=timeout, env=C.child_env())
+        if p.returncode != 0:
+            raise RuntimeError("c04_impl failed: " + p.stderr[-2000:])
+        return json.loads(p.stdout)
+    with ThreadPoolExecutor(max_workers=nproc) as ex:
+        outs = list(ex.map(one, chunks))
+    res = [None] * len(cases)
+    for k, chunk_out in enumerate(outs):
+        for j, o in enumerate(chunk_out):
+            res[k + j * nproc] = o
+    return res
 
 
-def expected_outcome(c, rs, ps, clk, end, have_repl):
-    """The documented accept / refuse rules, as a function of the two state
-    enums, clock >= end and (for bounded runs) the bound.  None = no rule checked."""
+# ============================================================================ the model-independent oracle
+def expected_outcome(c, rs, ps, clk, end):
+    """the documented accept / refuse rules"""
     running = rs in ("STARTING", "STARTED")
     k = c[0]
     if k == "init":
@@ -93,156 +198,732 @@ def expected_outcome(c, rs, ps, clk, end, have_repl):
     if k == "initbad":
         return "refused"
     if k in ("start", "step", "runupto", "runuptoincl"):
-        if running or rs == "NOT_INITIALIZED" or not have_repl:
+        if running or rs == "NOT_INITIALIZED" or ps not in ("INITIALIZED", "STARTED") or clk >= end:
             return "refused"
-        if ps not in ("INITIALIZED", "STARTED"):
+        if k in ("runupto", "runuptoincl") and (c[1] == "nan" or c[1] < clk):
             return "refused"
-        if clk >= end:
-            return "refused"
-        if k in ("runupto", "runuptoincl"):
-            if c[1] == "nan" or c[1] < clk:
-                return "refused"
         return "ok"
     if k == "stop":
         return "ok" if running else "refused"
     if k == "endrepl":
         return "ok" if ps == "STARTED" else "refused"
-    if k == "cleanup":
-        return "ok"
+    return "ok"
+
+
+class Monitor:
+    """the notification stream of one replication, as a subscriber may rely on it"""
+
+    def __init__(self, warm):
+        self.warm = warm
+        self.sr = self.run = self.starting = self.wu = self.er = False
+        self.last = None
+        self.count = 0
+
+    def feed(self, nm, ts):
+        if self.er:
+            return "notification-after-end-replication", f"{nm}@{ts} after END_REPLICATION"
+        if self.starting and nm != "start":
+            return "starting-not-followed-by-start", f"STARTING followed by {nm}@{ts}"
+        if ts is not None:
+            if not isinstance(ts, int):
+                return "timestamp-not-exact", f"{nm}@{ts}"
+            if self.last is not None and ts < self.last:
+                return ("time-changed-decreasing" if nm == "time" else "timestamp-decreasing"), f"{self.last} -> {nm}@{ts}"
+        if nm == "startrepl":
+            if self.sr or self.count:
+                return "start-replication-not-once-and-first", f"START_REPLICATION@{ts} after {self.count} notifications"
+            self.sr = True
+        elif not self.sr:
+            return "start-replication-not-once-and-first", f"{nm}@{ts} before START_REPLICATION"
+        elif nm == "starting":
+            if self.run:
+                return "starting-while-started", "STARTING between START and STOP"
+            self.starting = True
+        elif nm == "start":
+            if self.run:
+                return "start-stop-not-alternating", "START while started"
+            self.run, self.starting = True, False
+        elif nm == "stop":
+            if not self.run:
+                return "start-stop-not-alternating", "STOP while stopped"
+            self.run = False
+        elif nm == "time":
+            if not self.run:
+                return "time-changed-outside-run", f"TIME_CHANGED@{ts} outside START..STOP"
+        elif nm == "warmup":
+            if self.wu:
+                return "warmup-more-than-once", f"second WARMUP@{ts}"
+            if not self.run:
+                return "warmup-outside-run", f"WARMUP@{ts} outside START..STOP"
+            if ts != self.warm:
+                return "warmup-at-wrong-time", f"WARMUP@{ts}, warm-up time {self.warm}"
+            self.wu = True
+        elif nm == "stopping":
+            if not self.run:
+                return "stopping-outside-run", "STOPPING outside START..STOP"
+        elif nm == "endrepl":
+            if self.run:
+                return "end-replication-while-started", "END_REPLICATION between START and STOP"
+            self.er = True
+        else:
+            return "unknown-notification", nm
+        if ts is not None:
+            self.last = ts
+        self.count += 1
+        return None
+
+    def quiet(self):
+        if self.run:
+            return "start-stop-not-alternating", "START without STOP at quiescence"
+        if self.starting:
+            return "starting-not-followed-by-start", "STARTING without START at quiescence"
+        return None
+
+
+QSTATES = {("NOT_INITIALIZED", "NOT_INITIALIZED", 0), ("INITIALIZED", "INITIALIZED", 1),
+           ("STOPPED", "STARTED", 1), ("ENDED", "ENDED", 0)}
+
+
+def check_quiescent(sn, mon, tag=""):
+    """state invariants of a quiescent simulator; sn = [res, rs, ps, clk, npend, live, strictly_quiet]"""
+    r, rs, ps, clk, npend, live, quiet = sn
+    if not quiet:
+        return "not-quiescent" + tag, f"run thread still active 4 s after the command ({rs}/{ps})"
+    if rs not in QUIET_RS:
+        return f"run-state-stuck-{rs}" + tag, f"quiescent simulator reports run state {rs} (replication {ps})"
+    if ps == "ENDING":
+        return "replication-stuck-ENDING" + tag, f"quiescent simulator reports replication state ENDING (run state {rs})"
+    if (rs, ps, live) not in QSTATES:
+        if (rs, ps) in {(a, b) for a, b, _ in QSTATES}:
+            return ("run-thread-still-alive" if live else "run-thread-missing") + tag, f"{live} live run thread(s) in state {rs}/{ps}"
+        return "state-pair-inconsistent" + tag, f"quiescent simulator in state {rs}/{ps}"
+    if mon is not None:
+        q = mon.quiet()
+        if q:
+            return q[0] + tag, q[1]
+        if mon.er != (ps == "ENDED"):
+            return "ended-without-end-replication" + tag, f"replication state {ps}, END_REPLICATION seen: {mon.er}"
+        if mon.sr != (ps in ("STARTED", "ENDED")):
+            return "start-replication-state-mismatch" + tag, f"replication state {ps}, START_REPLICATION seen: {mon.sr}"
     return None
 
 
 def oracle(case, obs):
-    facts = {"refusal": False, "reinit": False, "ended": False, "inner_cmd": False, "cleanup": False, "executed": 0}
+    """first violated clause as (signature, description) or None; plus facts about the case"""
+    facts = {"refusal": False, "reinit": False, "ended": False, "inner_cmd": False, "cleanup": False,
+             "resumed": False, "executed": 0, "accepted": 0}
     if "error" in obs:
         return ("driver-error", obs["error"]), facts
-    why = S.representable(obs)
-    rs, ps, clk, npend = "NOT_INITIALIZED", "NOT_INITIALIZED", 0, 0
-    end, warm, have_repl = None, None, False
-    # monitor state per replication
+    rs, ps, clk, npend, live = "NOT_INITIALIZED", "NOT_INITIALIZED", 0, 0, 0
+    end = 0
     mon = None
-    seg_ntfs = []
+    seg = []                    # notifications since the last command returned
+    pending_tc = None
     n_init = 0
-    pending_time = None      # a TIME_CHANGED notification waiting for "its" event
+    max_t = None                # latest event / time-changed time of this replication
+    starts = 0
     for ent in obs["log"]:
-        if ent[0] == "ntf":
-            seg_ntfs.append(ent)
+        kind = ent[0]
+        if kind == "ntf":
             nm, ts = ent[1], ent[2]
+            seg.append([nm, ts])
             if mon is None:
-                return ("notification-outside-replication", f"{nm}@{ts} before any initialize"), facts
-            if mon["ended"]:
-                return ("notification-after-end-replication", f"{nm}@{ts}"), facts
-            if nm == "startrepl":
-                if mon["started"] or mon["count"] > 0:
-                    return ("start-replication-not-once-and-first", f"{nm}@{ts} after {mon['count']} notifications"), facts
-                mon["started"] = True
-            elif not mon["started"]:
-                return ("start-replication-not-once-and-first", f"{nm}@{ts} before START_REPLICATION"), facts
-            if nm == "start":
-                if mon["run"]:
-                    return ("start-stop-not-alternating", "START while started"), facts
-                mon["run"] = True
-            if nm == "stop":
-                if not mon["run"]:
-                    return ("start-stop-not-alternating", "STOP while stopped"), facts
-                mon["run"] = False
-            if nm == "time":
-                if pending_time is not None:
-                    return ("time-changed-without-event", f"TIME_CHANGED@{pending_time} not followed by an event"), facts
-                if mon["last_t"] is not None and ts < mon["last_t"]:
-                    return ("time-changed-decreasing", f"{mon['last_t']} -> {ts}"), facts
-                mon["last_t"] = ts
-                pending_time = ts
+                return ("notification-outside-replication", f"{nm}@{ts} without an initialized replication"), facts
+            if pending_tc is not None and not (nm == "warmup" and ts == pending_tc):
+                return ("time-changed-without-event", f"TIME_CHANGED@{pending_tc} followed by {nm}@{ts}, not by the event"), facts
             if nm == "warmup":
-                if mon["warm"]:
-                    return ("warmup-more-than-once", f"second WARMUP@{ts}"), facts
-                mon["warm"] = True
-                if ts != warm:
-                    return ("warmup-at-wrong-time", f"WARMUP@{ts}, warm-up time {warm}"), facts
-                if pending_time is not None and pending_time == ts:
-                    pending_time = None
-            if nm == "endrepl":
-                if mon["run"]:
-                    return ("end-replication-while-started", "END_REPLICATION between START and STOP"), facts
-                mon["ended"] = True
-            mon["count"] += 1
-        elif ent[0] == "exec":
-            if pending_time is not None:
-                if ent[2] != pending_time:
-                    return ("time-changed-differs-from-event-time", f"TIME_CHANGED@{pending_time}, event ran at {ent[2]}"), facts
-                pending_time = None
+                pending_tc = None
+            bad = mon.feed(nm, ts)
+            if bad:
+                return bad, facts
+            if nm == "time":
+                pending_tc = ts
+                max_t = ts if max_t is None else max(max_t, ts)
+        elif kind == "exec":
+            t = ent[2]
+            if pending_tc is not None:
+                if t != pending_tc:
+                    return ("time-changed-differs-from-event-time", f"TIME_CHANGED@{pending_tc}, next event ran at {t}"), facts
+                pending_tc = None
+            if mon is not None and not mon.run:
+                return ("event-executed-outside-run", f"event {ent[1]} executed at {t} outside START..STOP"), facts
+            if mon is not None and mon.warm is not None and t > mon.warm >= mon.start and not mon.wu:
+                return ("warmup-missed", f"event executed at {t} after the warm-up time {mon.warm} without WARMUP"), facts
             facts["executed"] += 1
-        elif ent[0] == "sched":
-            if ent[3] in ("cmdok", "cmdref"):
-                pass
-        elif ent[0] == "cmd":
-            c, r, rs2, ps2, clk2, np2 = ent[1], ent[2], ent[3], ent[4], ent[5], ent[6]
+        elif kind == "icmd":
+            facts["inner_cmd"] = True
+            c, r, before, after = ent[1], ent[2], ent[3], ent[4]
+            if r not in ("ok", "refused"):
+                return ("command-raises-unrelated-error", f"{c} from a handler in state {before[0]}/{before[1]} -> {r}"), facts
+            exp = expected_outcome(c, before[0], before[1], before[2], end)
+            if r != exp:
+                return ("accept-refuse-rule-violated", f"{c} from a handler in state {before[0]}/{before[1]}: {r}, documented rule says {exp}"), facts
+            if r == "refused" and before != after:
+                return ("refused-command-changed-state", f"{c} from a handler: {before} -> {after}"), facts
+        elif kind == "cmd":
+            c, sn = ent[1], ent[2:]
+            r, rs2, ps2, clk2, np2, live2, quiet = sn
             if r not in ("ok", "refused"):
                 return ("command-raises-unrelated-error", f"{c} in state {rs}/{ps} -> {r}"), facts
-            exp = expected_outcome(c, rs, ps, clk, end if end is not None else 0, have_repl)
-            if exp is not None and r != exp:
+            exp = expected_outcome(c, rs, ps, clk, end)
+            if r != exp:
                 return ("accept-refuse-rule-violated", f"{c} in state {rs}/{ps} clock {clk} end {end}: {r}, documented rule says {exp}"), facts
             if r == "refused":
                 facts["refusal"] = True
-                if (rs2, ps2, clk2, np2) != (rs, ps, clk, npend):
-                    return ("refused-command-changed-state", f"{c}: ({rs},{ps},{clk},{npend}) -> ({rs2},{ps2},{clk2},{np2})"), facts
-                if seg_ntfs:
-                    return ("refused-command-notified", f"{c}: {seg_ntfs[:3]}"), facts
-            if pending_time is not None:
-                # a TIME_CHANGED for the warm-up event has no handler entry in the log; tolerate exactly that
-                if not (warm is not None and pending_time == warm):
-                    return ("time-changed-without-event", f"TIME_CHANGED@{pending_time} not followed by an event"), facts
-                pending_time = None
+                if (rs2, ps2, clk2, np2, live2) != (rs, ps, clk, npend, live):
+                    return ("refused-command-changed-state", f"{c}: ({rs},{ps},{clk},{npend},{live}) -> ({rs2},{ps2},{clk2},{np2},{live2})"), facts
+                if seg:
+                    return ("refused-command-notified", f"{c}: {seg[:3]}"), facts
+            else:
+                facts["accepted"] += 1
+            if pending_tc is not None:
+                return ("time-changed-without-event", f"TIME_CHANGED@{pending_tc} not followed by an event"), facts
             if c[0] == "init" and r == "ok":
                 n_init += 1
-                if n_init > 1:
-                    facts["reinit"] = True
-                have_repl = True
-                end, warm = c[3], c[2]
-                mon = {"started": False, "run": False, "last_t": None, "warm": False, "ended": False, "count": 0}
+                facts["reinit"] = facts["reinit"] or n_init > 1
+                end = c[3]
+                if seg:
+                    return ("initialize-notified", f"{seg[:3]}"), facts
+                mon = Monitor(c[2])
+                mon.start = c[1]
+                max_t = None
+                starts = 0
                 if (rs2, ps2, clk2) != ("INITIALIZED", "INITIALIZED", c[1]):
                     return ("initialize-wrong-state", f"{c}: {rs2}/{ps2} clock {clk2}"), facts
             if c[0] == "cleanup":
                 facts["cleanup"] = True
+                mon = None
                 if (rs2, ps2) != ("NOT_INITIALIZED", "NOT_INITIALIZED"):
                     return ("cleanup-wrong-state", f"{rs2}/{ps2}"), facts
-            if rs2 == "ENDED" or ps2 == "ENDED":
+            if c[0] in ("start", "runupto", "runuptoincl") and r == "ok":
+                starts += 1
+                facts["resumed"] = facts["resumed"] or starts > 1
+                if ["starting", None] not in seg:
+                    return ("accepted-start-not-announced", f"{c} accepted without a STARTING notification"), facts
+            if clk2 < clk and c[0] != "init":
+                return ("clock-went-backwards", f"{c}: clock {clk} -> {clk2}"), facts
+            bad = check_quiescent(sn, mon)
+            if bad:
+                return (bad[0], f"after {c}: {bad[1]}"), facts
+            if ps2 == "ENDED":
                 facts["ended"] = True
-                if (rs2, ps2) != ("ENDED", "ENDED"):
-                    return ("ended-state-inconsistent", f"{rs2}/{ps2}"), facts
-                if mon and not mon["ended"]:
-                    return ("ended-without-end-replication", f"state ENDED but no END_REPLICATION seen"), facts
-            if mon and mon["ended"] and r == "ok" and c[0] not in ("init", "cleanup") and rs == "ENDED":
-                return ("ended-not-absorbing", f"{c} accepted in ENDED"), facts
-            if rs2 not in ("NOT_INITIALIZED", "INITIALIZED", "STOPPED", "ENDED"):
-                return ("not-quiescent", f"state {rs2} after {c}"), facts
-            if mon and mon["run"]:
-                return ("start-stop-not-alternating", f"START without STOP at quiescence after {c}"), facts
-            rs, ps, clk, npend = rs2, ps2, clk2, np2
-            seg_ntfs = []
-    for a in (x for body in case["prog"] for x in body):
-        if a[0] == "cmd":
-            facts["inner_cmd"] = True
-    if rs in ("ENDED", "NOT_INITIALIZED") and obs.get("alive"):
-        return ("run-thread-still-alive", f"worker thread alive in state {rs}"), facts
-    if why is not None:
-        return ("unexpected-observation", why), facts
+                if clk2 != end and rs == "STARTED":
+                    pass
+            rs, ps, clk, npend, live = rs2, ps2, clk2, np2, live2
+            seg = []
+    if obs.get("alive", 0) != (1 if ps in ("INITIALIZED", "STARTED") else 0):
+        return ("run-thread-still-alive" if obs.get("alive") else "run-thread-missing",
+                f"{obs.get('alive')} live run thread(s) at the end in state {rs}/{ps}"), facts
+    if obs.get("notes"):
+        return ("harness-note", "; ".join(obs["notes"])), facts
     return None, facts
 
 
-RULE = ("random command sequences (len 2-9) over initialize / invalid initialize / start / step / stop / run_up_to / "
-        "run_up_to_including (incl. NaN and past bounds) / end_replication / cleanup, with re-initialisation, on generated programs "
-        "whose handlers also issue commands; plus ALL sequences of length <= 3 (quick) or <= 4 (thorough) over the 9-command alphabet "
-        "on a fixed program; non-trivial = distinct case with >= 3 executed events and at least one of: a refused command, "
-        "re-initialisation, reaching ENDED, a command issued from a handler, cleanup")
+# ============================================================================ Coq emission (M1)
+RS = {"NOT_INITIALIZED": "RNotInit", "INITIALIZED": "RInit", "STARTING": "RStarting", "STARTED": "RStarted",
+      "STOPPING": "RStopping", "STOPPED": "RStopped", "ENDED": "REnded"}
+PS = {"NOT_INITIALIZED": "PNotInit", "INITIALIZED": "PInit", "STARTED": "PStarted", "ENDING": "PEnding",
+      "ENDED": "PEnded"}
+STRAT = {"pause": "SWarnPause", "log": "SLog", "warn": "SWarnCont"}
+NTF = {"startrepl": "NStartRepl", "start": "NStart", "time": "NTime", "warmup": "NWarmup", "stop": "NStop",
+       "endrepl": "NEndRepl"}
+
+
+def c_tmv(t):
+    return "TNaN" if t == "nan" else f"(TNum {C.cz(t)})"
+
+
+def c_cmd(c):
+    k = c[0]
+    if k == "init":
+        return f"(CInit (mkRepl {C.cz(c[1])} {C.cz(c[2])} {C.cz(c[3])}))"
+    if k == "runupto":
+        return f"(CRunUpTo {c_tmv(c[1])})"
+    if k == "runuptoincl":
+        return f"(CRunUpToIncl {c_tmv(c[1])})"
+    return {"initbad": "CInitBad", "start": "CStart", "step": "CStep", "stop": "CStop", "endrepl": "CEndRepl",
+            "cleanup": "CCleanup"}[k]
+
+
+def c_action(a):
+    k = a[0]
+    if k == "sched":
+        m = a[1]
+        mode = "MNow" if m[0] == "now" else (f"(MRel {c_tmv(m[1])})" if m[0] == "rel" else f"(MAbs {c_tmv(m[1])})")
+        return f"ASched {mode} {C.cz(a[2])} {C.cnat(a[3])}"
+    if k == "cancel":
+        return f"ACancel {C.cnat(a[1])}"
+    if k == "fail":
+        return "AFail"
+    if k == "cmd":
+        return f"ACmd {c_cmd(a[1])}"
+    raise ValueError(a)
+
+
+def c_ntf(nm, t):
+    if nm == "starting":
+        return "NStarting"
+    if nm == "stopping":
+        return "NStopping"
+    return f"{NTF[nm]} {C.cz(t)}"
+
+
+def per_command_obs(obs):
+    """[(snapshot, notifications during the command)] from the chronological log"""
+    out, seg = [], []
+    for ent in obs["log"]:
+        if ent[0] == "ntf":
+            seg.append((ent[1], ent[2]))
+        elif ent[0] == "cmd":
+            out.append((ent[2:], seg))
+            seg = []
+    return out
+
+
+def representable(obs):
+    if "error" in obs:
+        return "driver error: " + obs["error"]
+    for sn, seg in per_command_obs(obs):
+        if sn[0] not in ("ok", "refused"):
+            return f"command outcome {sn[0]}"
+        if sn[1] not in RS or sn[2] not in PS or not isinstance(sn[3], int):
+            return f"snapshot {sn}"
+        for nm, t in seg:
+            if nm in NTF and not isinstance(t, int):
+                return f"notification {nm} timestamp {t}"
+            if nm not in NTF and nm not in ("starting", "stopping"):
+                return f"notification {nm}"
+    return None
+
+
+def c_lcase(case, obs):
+    prog = C.clist(C.clist(c_action(a) for a in body) for body in case["prog"])
+    cmds = C.clist(c_cmd(c) for c in case["cmds"])
+    snaps = C.clist(
+        f"mkLsnap {'ResOk' if sn[0] == 'ok' else 'ResRefused'} {RS[sn[1]]} {PS[sn[2]]} {C.cz(sn[3])} {C.cnat(sn[4])} "
+        f"{C.cnat(sn[5])} {C.clist(c_ntf(nm, t) for nm, t in seg)}"
+        for sn, seg in per_command_obs(obs))
+    return f"(mkLcase {STRAT[case['strategy']]} {prog} {cmds} {snaps})"
+
+
+def coq_compare(scratch, cases, obs, shard=400):
+    """codes[i]: 0 agree, 1 model and implementation differ, 2 outside the model, 3 they agree but the
+    Coq-side table/monitor rejects the observed history, 4 not representable"""
+    codes = [0] * len(cases)
+    idxs = []
+    for i, o in enumerate(obs):
+        if representable(o) is None:
+            idxs.append(i)
+        else:
+            codes[i] = 4
+    groups = [idxs[s:s + shard] for s in range(0, len(idxs), shard)]
+    files = []
+    for g, grp in enumerate(groups):
+        f = scratch / f"cases_c04_{g}.v"
+        lines = ["From Coq Require Import ZArith List.", "From PV Require Import Sim.Model Sim.Lifecycle.",
+                 "Import ListNotations.", "Definition cases : list lcase := ["]
+        lines.append(";\n".join(c_lcase(cases[i], obs[i]) for i in grp))
+        lines.append("].")
+        for want in (1, 2, 3):
+            lines.append(f"Eval vm_compute in (lcodes_from 0 {want} cases).")
+        f.write_text("\n".join(lines) + "\n")
+        files.append(f)
+    results = C.coqc_many(files)
+    for g, (rc, out) in enumerate(results):
+        lists = C.parse_nat_lists(out)
+        if rc != 0 or len(lists) != 3:
+            return codes, f"coqc failed on {files[g].name}: {out[-800:]}"
+        for want, lst in zip((1, 2, 3), lists):
+            for j in lst:
+                codes[groups[g][j]] = want
+    return codes, None
+
+
+def coq_view(case, obs):
+    d = C.SCRATCH / (PID + "_view")
+    d.mkdir(parents=True, exist_ok=True)
+    f = d / "view.v"
+    f.write_text("From Coq Require Import ZArith List.\nFrom PV Require Import Sim.Model Sim.Lifecycle.\n"
+                 "Import ListNotations.\n"
+                 f"Definition c : lcase := {c_lcase(case, obs)}.\n"
+                 "Eval vm_compute in (lcase_code c).\nEval vm_compute in (lcase_view c).\n")
+    rc, out = C.coqc_file(f)
+    return out[-5000:]
+
+
+# ============================================================================ shrinking
+def shrink_seq(case, pred):
+    cur = json.loads(json.dumps(case))
+    changed = True
+    budget = 60
+    while changed and budget > 0:
+        changed = False
+        for i in range(len(cur["cmds"])):
+            cand = json.loads(json.dumps(cur))
+            del cand["cmds"][i]
+            budget -= 1
+            if cand["cmds"] and pred(cand):
+                cur, changed = cand, True
+                break
+        if changed:
+            continue
+        for h in range(len(cur["prog"])):
+            for i in range(len(cur["prog"][h])):
+                cand = json.loads(json.dumps(cur))
+                del cand["prog"][h][i]
+                budget -= 1
+                if pred(cand):
+                    cur, changed = cand, True
+                    break
+            if changed:
+                break
+    return cur
+
+
+# ============================================================================ C2: forced interleavings
+def overlap_scenarios(tier):
+    """Each scenario: a model, a run command, gates, the overlapping command, and the point of the run
+    thread's loop (M2's wpc) the run thread is held at.  Times in quarter units (float clock)."""
+    one_event = [[["sched", ["abs", 4], 5, 1]], []]                       # one event at t = 1
+    two_events = [[["sched", ["abs", 4], 5, 1], ["sched", ["abs", 12], 5, 1]], []]
+    init = ["init", 0, 0, 16]
+    S = []
+
+    def add(name, prog, runcmd, gates, cmd, wpc, after=None, m2=True, slow=False, race=None):
+        S.append({"kind": "overlap", "name": name, "race": race or name, "clock": "float", "strategy": "pause", "prog": prog,
+                  "setup": [init], "runcmd": runcmd, "gates": gates, "hold_gate": 0, "cmd": cmd, "wpc": wpc,
+                  "after": after or [], "m2": m2, "slow": slow})
+
+    hold_exec = {"at": ["exec", 0, 1], "thread": "worker"}
+    hold_stop = {"at": ["ntf", "stop", 1], "thread": "worker"}
+    hold_end = {"at": ["ntf", "endrepl", 1], "thread": "worker"}
+    # --- the two races named in the property
+    add("stop-vs-natural-end", one_event, ["start"],
+        [dict(hold_exec, until=["reached", 1]), {"at": ["ntf", "stopping", 1], "thread": "main", "until": ["wdead"]}],
+        ["stop"], "WExec")
+    # (the wake-up flag stays set during a run, so the run thread is released shortly after start() has written
+    #  STARTING: by then start() has fired STARTING, called wakeup() and sits in its wait for _runflag)
+    add("start-during-stopping", two_events, ["runupto", 8],
+        [dict(hold_stop, until=["rs", "STARTING"], delay=0.03)], ["start"], "WSetStopped", slow=True)
+    # --- a command while an event handler runs
+    add("stop-in-handler-window", two_events, ["start"], [dict(hold_exec, until=["rs", "STOPPING"])], ["stop"], "WExec")
+    add("start-while-running", two_events, ["start"], [dict(hold_exec, until=["main_returned"])], ["start"], "WExec")
+    add("step-while-running", two_events, ["start"], [dict(hold_exec, until=["main_returned"])], ["step"], "WExec")
+    add("end-replication-while-running", two_events, ["start"], [dict(hold_exec, until=["main_returned"])], ["endrepl"], "WExec")
+    add("cleanup-while-running", two_events, ["start"], [dict(hold_exec, until=["rs", "STOPPING"])], ["cleanup"], "WExec")
+    # --- a command in the STOPPING window of a bounded run (STOP notified, STOPPED not yet written)
+    add("stop-during-stopping", two_events, ["runupto", 8], [dict(hold_stop, until=["main_returned"])], ["stop"], "WSetStopped")
+    add("step-during-stopping", two_events, ["runupto", 8], [dict(hold_stop, until=["main_returned"])], ["step"], "WSetStopped")
+    add("end-replication-during-stopping", two_events, ["runupto", 8], [dict(hold_stop, until=["main_returned"])], ["endrepl"], "WSetStopped")
+    add("cleanup-during-stopping", two_events, ["runupto", 8], [dict(hold_stop, until=["or", ["rs", "STOPPING"], ["main_returned"]], timeout=0.3)],
+        ["cleanup"], "WSetStopped")
+    # --- a command while END_REPLICATION is being notified (states already ENDED, thread not yet finalized)
+    for c in (["start"], ["step"], ["stop"], ["endrepl"], ["cleanup"]):
+        add(f"{c[0]}-during-end-replication", one_event, ["start"],
+            [dict(hold_end, until=["or", ["rs", "STOPPING"], ["main_returned"]])], c, "WSetFinal")
+    # --- a command issued from a handler after its own stop(): initialize in the STOPPING window (not in M2)
+    S.append({"kind": "seq", "name": "initialize-from-handler-after-stop", "race": "initialize-from-handler-after-stop", "clock": "float", "strategy": "pause",
+              "prog": [[["sched", ["abs", 4], 5, 1]], [["cmd", ["stop"]], ["cmd", ["init", 0, 0, 40]]]],
+              "cmds": [init, ["start"]], "setup": [], "cmd": ["init", 0, 0, 40], "wpc": "handler, after its own stop()",
+              "m2": False, "slow": True})
+    if tier != "quick":
+        add("start-during-stopping-after-handler-stop", [[["sched", ["abs", 4], 5, 1], ["sched", ["abs", 12], 5, 2]], [["cmd", ["stop"]]], []],
+            ["start"], [dict(hold_stop, until=["rs", "STARTING"], delay=0.03)], ["start"], "WSetStopped", slow=True,
+            race="start-during-stopping")
+    return S
+
+
+def overlap_oracle(sc, obs):
+    """model-independent: the quiescent outcome of the overlap must satisfy the state invariants, the
+    stream must be well-formed, the command must end in ok / refused"""
+    if "error" in obs:
+        return "driver-error", obs["error"]
+    name = sc["race"]
+    if sc["kind"] == "seq":
+        bad, _ = oracle(sc, obs)
+        return (f"overlap:{name}:{bad[0]}", bad[1]) if bad else None
+    if sc["m2"] and not obs.get("hold_reached"):
+        return f"overlap:{name}:gate-not-reached", "the run thread never arrived at the rendezvous point"
+    sn = obs["snaps"][len(sc["setup"])]
+    if sn[0] not in ("ok", "refused"):
+        return f"overlap:{name}:command-raises-unrelated-error", f"{sc['cmd']} -> {sn[0]}"
+    mon = Monitor(0)
+    mon.start = 0
+    detached = False
+    for ent in obs["log"]:
+        if ent[0] == "ntf" and not detached:
+            bad = mon.feed(ent[1], ent[2])
+            if bad:
+                return f"overlap:{name}:{bad[0]}", bad[1]
+        if ent[0] == "cmd" and ent[1][0] == "cleanup":
+            detached = True
+        if ent[0] == "overlap-begin" and sc["cmd"][0] == "cleanup":
+            detached = True
+        if ent[0] == "icmd" and ent[1][0] == "init" and ent[2] == "ok":
+            detached = True
+    bad = check_quiescent(sn, None if detached else mon)
+    if bad:
+        return f"overlap:{name}:{bad[0]}", bad[1]
+    return None
+
+
+def overlap_view(sc, obs):
+    """what M2 can see of the quiescent outcome: Coq term of type oview"""
+    sn = obs["snaps"][len(sc["setup"])]
+    mon = Monitor(0)
+    mon.start = 0
+    flags = "None"
+    ok = True
+    for ent in obs["log"]:
+        if ent[0] == "ntf" and ok:
+            if mon.feed(ent[1], ent[2]):
+                ok = False
+        if ent[0] == "overlap-begin" and sc["cmd"][0] == "cleanup":
+            break
+    if ok:
+        flags = f"(Some ({C.cbool(mon.sr)}, {C.cbool(mon.run)}, {C.cbool(mon.starting)}, {C.cbool(mon.er)}))"
+    return f"(mkOview {RS[sn[1]]} {PS[sn[2]]} {C.cbool(sn[5] > 0)} {flags})"
+
+
+OCMD = {"start": "OStart", "runupto": "OStart", "runuptoincl": "OStart", "step": "OStep", "stop": "OStop",
+        "endrepl": "OEndRepl", "cleanup": "OCleanup"}
+
+
+def coq_overlap(scratch, scs, obs):
+    """for every scenario in M2's scope: is the observed quiescent outcome one M2 allows for the command
+    issued while the run thread is held at that point with that shared state?"""
+    rows = []
+    idx = []
+    for i, (sc, o) in enumerate(zip(scs, obs)):
+        if not sc["m2"] or "error" in o or not o.get("hold_reached") or not o.get("held_state"):
+            continue
+        hs = o["held_state"]
+        if hs[0] not in RS or hs[1] not in PS:
+            continue
+        rows.append(f"overlap_allows TL {sc['wpc']} {RS[hs[0]]} {PS[hs[1]]} {OCMD[sc['cmd'][0]]} {overlap_view(sc, o)}")
+        idx.append(i)
+    if not rows:
+        return {}, None
+    f = scratch / "overlap_c04.v"
+    f.write_text("From Coq Require Import ZArith List Bool.\n"
+                 "From PV Require Import Sim.Model Sim.Lifecycle Sim.Overlap.\nImport ListNotations.\n"
+                 "Definition TL := Eval vm_compute in closure true pol_any.\n"
+                 "Definition rows : list bool := [" + ";\n".join(rows) + "].\n"
+                 "Fixpoint falses (i : nat) (l : list bool) : list nat := match l with [] => [] | b :: r => "
+                 "if b then falses (S i) r else i :: falses (S i) r end.\n"
+                 "Eval vm_compute in (falses 0 rows).\n"
+                 "Eval vm_compute in (length (states TL)).\n")
+    rc, out = C.coqc_file(f)
+    lst = C.parse_nat_list(out)
+    if rc != 0 or lst is None:
+        return {}, f"coqc failed on {f.name}: {out[-800:]}"
+    return {idx[j]: (j not in lst) for j in range(len(idx))}, None
+
+
+def rapid_alternation_case(n):
+    """start / stop in quick succession on a model that never runs out of events"""
+    prog = [[["sched", ["abs", 1], 5, 1]], [["sched", ["rel", 1], 5, 1]]]
+    cmds = [["init", 0, 0, 4000000]]
+    for _ in range(n):
+        cmds += [["start"], ["stop"]]
+    return {"kind": "seq", "clock": "float", "strategy": "pause", "prog": prog, "cmds": cmds, "src": "alternation"}
+
+
+# ============================================================================ main
+RULE = ("(C1) ALL command sequences of length <= 3 (quick) / <= 5 (thorough) over the alphabet {initialize, invalid initialize, "
+        "start, step, stop, run_up_to, run_up_to_including, end_replication, cleanup} on a fixed model, plus random sequences "
+        "(length 4-22, re-initialisation, NaN / past bounds) on generated models whose handlers schedule, cancel, fail and issue "
+        "commands themselves (incl. stop() on the run thread), on int / float / Duration clocks, every command issued at strict "
+        "quiescence; (C2) forced interleavings of one command with the run thread held in a handler / a STOP listener / an "
+        "END_REPLICATION listener.  non-trivial = distinct sequence with >= 2 accepted commands, >= 1 executed event and at "
+        "least one of: a refused command, re-initialisation, reaching ENDED, a command issued from a handler, cleanup, a resumed run")
 
 
 def main(tier: str) -> int:
-    return c02.main(tier, pid=PID, gen=gen_case, oracle_fn=oracle, rule=RULE, extra_cases=extra_cases,
-                    n_quick=1000, n_thorough=12000,
-                    extra_tb=["overlap of a command with the run thread is proved on the two-thread transition system Sim/Overlap.v "
-                              "(finite reachable set, closed-set invariant checked by the kernel); CPython preemption between the listed "
-                              "shared accesses is not modelled"])
+    run = C.Run(PID, tier)
+    proofs_ok = run.check_proofs(TARGETS, extra_tb=[
+        "M1 is proved over Sim/Model.v's command semantics (worker thread executed synchronously, commands observed at strict quiescence); "
+        "times are exact dyadic numbers",
+        "M2 (Sim/Overlap.v) abstracts CPython's preemption to the listed shared reads/writes of _run_state, _replication_state, the wake-up "
+        "Event, _runflag, _finalized; the implementation is tied to M2 by sampled forced interleavings (gates in listeners/handlers), "
+        "not by proof; CPython threading trusted",
+        "the one-second waits are modelled as give-up transitions (strict: only when the run thread is blocked; loose: any time)",
+    ])
+    rng = random.Random(run.seed * 104729 + 4)
+    scratch = C.scratch_dir(PID)
+    t0 = time.time()
+
+    # ---------------- C1 cases
+    cases = []
+    corpus = C.VERIF / "corpus" / f"{PID}.json"
+    if corpus.exists():
+        cases += [dict(c, src="corpus") for c in json.loads(corpus.read_text())]
+    n_rand = 700 if tier == "quick" else 8000
+    n_stop = 8 if tier == "quick" else 60           # stop() on the run thread costs 1 s wall each
+    for i in range(n_rand):
+        cases.append(gen_random_case(rng, i, allow_stop=(i < n_stop)))
+    cases.append(rapid_alternation_case(15 if tier == "quick" else 100))
+    cases += exhaustive_cases(tier)
+    scs = [s for s in overlap_scenarios(tier)]
+    try:
+        # slow cases first so that the 1 s waits overlap
+        order = sorted(range(len(cases)), key=lambda i: 0 if any(a[0] == "cmd" and a[1][0] == "stop" for b in cases[i]["prog"] for a in b) else 1)
+        with ThreadPoolExecutor(max_workers=2) as ex:
+            f_over = ex.submit(run_impl, scs, len(scs))
+            f_seq = ex.submit(run_impl, [cases[i] for i in order], 14)
+            sobs, oo = f_over.result(), f_seq.result()
+        obs = [None] * len(cases)
+        for k, i in enumerate(order):
+            obs[i] = oo[k]
+    except Exception as exc:  # noqa
+        run.violation("harness-cannot-run-implementation", f"{type(exc).__name__}: {exc}"[:600], {}, found_input=False)
+        return run.finish()
+    t_impl = time.time() - t0
+
+    # ---------------- oracle on C1
+    nontriv = set()
+    hist = {}
+    bad_by_sig = {}
+    for i, (c, o) in enumerate(zip(cases, obs)):
+        bad, facts = oracle(c, o)
+        for k, v in facts.items():
+            if v is True:
+                hist[k] = hist.get(k, 0) + 1
+        if facts["accepted"] >= 2 and facts["executed"] >= 1 and any(v is True for v in facts.values()):
+            nontriv.add(json.dumps([c["prog"], c["cmds"], c["clock"], c["strategy"]]))
+        if bad and bad[0] not in bad_by_sig:
+            bad_by_sig[bad[0]] = (i, bad)
+    run.cov["evaluations"] = len(cases) + len(scs)
+    run.cov["distinct_nontrivial"] = len(nontriv)
+    run.cov["rule"] = RULE
+    run.cov["feature_histogram"] = hist
+    run.cov["exhaustive_sequences"] = sum(1 for c in cases if c.get("src") == "exhaustive")
+    run.cov["random_sequences"] = sum(1 for c in cases if c.get("src") == "random")
+    run.cov["command_histogram"] = {}
+    for c in cases:
+        for cmd in c["cmds"]:
+            run.cov["command_histogram"][cmd[0]] = run.cov["command_histogram"].get(cmd[0], 0) + 1
+    run.cov["clock_kinds"] = sorted({c["clock"] for c in cases})
+    for c, o in [(c, o) for c, o in zip(cases, obs) if c.get("src") == "random"][:2]:
+        run.add_sample({"case": {k: c[k] for k in ("clock", "strategy", "prog", "cmds")},
+                        "impl": {"snaps": o.get("snaps"), "ntfs": o.get("ntfs")}})
+
+    def report_seq(i, bad):
+        sig = bad[0]
+
+        def pred(cand):
+            try:
+                o2 = run_impl([cand], 1)[0]
+                b, _ = oracle(cand, o2)
+            except Exception:
+                return False
+            return bool(b) and b[0] == sig
+        small = cases[i]
+        if sig not in ("driver-error", "harness-note") and pred(cases[i]):
+            small = shrink_seq(cases[i], pred)
+        o2 = run_impl([small], 1)[0]
+        b, _ = oracle(small, o2)
+        run.violation(sig, (b or bad)[1], {"case": {k: small[k] for k in ("kind", "clock", "strategy", "prog", "cmds")},
+                                           "impl_observation": {k: o2.get(k) for k in ("snaps", "ntfs", "log", "alive", "notes", "error")},
+                                           "how": "feed [case] as a JSON list to harness/c04_impl.py with PYTHONPATH=<repo>/src"})
+
+    for sig, (i, bad) in sorted(bad_by_sig.items())[:4]:
+        report_seq(i, bad)
+
+    # ---------------- oracle on C2
+    run.cov["overlap_scenarios"] = {}
+    for sc, o in zip(scs, sobs):
+        bad = overlap_oracle(sc, o)
+        run.cov["overlap_scenarios"][sc["name"]] = (bad[0] if bad else "consistent") if "error" not in o else "driver-error"
+        if bad:
+            sn = o["snaps"][-1] if o.get("snaps") else None
+            run.violation(bad[0], f"{sc['name']}: {sc['cmd']} overlapping the run thread ({sc['wpc']}): {bad[1]}; outcome {sn}",
+                          {"scenario": sc, "impl_observation": {k: o.get(k) for k in ("snaps", "ntfs", "held_state", "gates", "cmd_wall", "alive", "notes", "error")},
+                           "how": "feed [scenario] as a JSON list to harness/c04_impl.py with PYTHONPATH=<repo>/src"})
+    if scs:
+        run.add_sample({"overlap_scenario": {k: scs[0].get(k) for k in ("name", "prog", "runcmd", "gates", "cmd", "wpc")},
+                        "impl": {"snaps": sobs[0].get("snaps"), "ntfs": sobs[0].get("ntfs"), "held_state": sobs[0].get("held_state")}})
+
+    # ---------------- correspondence with M1 and M2 inside coqc
+    t1 = time.time()
+    with ThreadPoolExecutor(max_workers=2) as ex:
+        f_m1 = ex.submit(coq_compare, scratch, cases, obs)
+        f_m2 = ex.submit(coq_overlap, scratch, scs, sobs)
+        (codes, err), (allowed, err2) = f_m1.result(), f_m2.result()
+    run.cov["wall_impl_s"] = round(t_impl, 1)
+    run.cov["wall_coq_s"] = round(time.time() - t1, 1)
+    if err or err2:
+        run.violation("correspondence-not-evaluable", err or err2, {}, found_input=False)
+        return run.finish()
+    run.cov["traces_validated_against_impl"] = sum(1 for x in codes if x == 0) + sum(1 for v in allowed.values() if v)
+    run.cov["model_impl_mismatches"] = sum(1 for x in codes if x == 1)
+    run.cov["cases_outside_model"] = sum(1 for x in codes if x == 2)
+    run.cov["coq_monitor_rejections"] = sum(1 for x in codes if x == 3)
+    run.cov["cases_not_representable"] = sum(1 for x in codes if x == 4)
+    run.cov["overlap_outcomes_allowed_by_M2"] = sum(1 for v in allowed.values() if v)
+    run.cov["overlap_outcomes_checked_against_M2"] = len(allowed)
+    flagged = {i for sig, (i, b) in bad_by_sig.items()}
+    for want, sig, what in ((1, "model-impl-disagree", "Lifecycle.lcase_code: the model M1 and the implementation differ on this command sequence"),
+                            (3, "coq-monitor-rejects", "Lifecycle.observed_ok: table / monitor reject the observed history"),
+                            (4, "unexpected-observation", "the observation cannot be expressed in the model's vocabulary")):
+        idx = [i for i, x in enumerate(codes) if x == want]
+        if not idx:
+            continue
+        if bad_by_sig:
+            continue        # a concrete failing input has been reported already
+        # the oracle found nothing on the generated cases: search more inputs around the disagreeing one
+        i = idx[0]
+        found = None
+        rr = random.Random(run.seed + 77)
+        extra = []
+        for _ in range(150):
+            c2 = json.loads(json.dumps(cases[i]))
+            if c2["cmds"] and rr.random() < 0.7:
+                j = rr.randrange(len(c2["cmds"]))
+                c2["cmds"].insert(j, rr.choice(alphabet(unit_of(c2["clock"]))))
+            else:
+                c2["cmds"].append(rr.choice(alphabet(unit_of(c2["clock"]))))
+            extra.append(c2)
+        try:
+            eobs = run_impl(extra, 12)
+            for c2, o2 in zip(extra, eobs):
+                b, _ = oracle(c2, o2)
+                if b:
+                    found = (c2, b)
+                    break
+        except Exception:
+            pass
+        if found:
+            cases.append(found[0]); obs.append(None)
+            report_seq(len(cases) - 1, found[1])
+        else:
+            run.violation(sig, what + "; no clause of the property was found violated by the oracle on the explored inputs",
+                          {"case": {k: cases[i][k] for k in ("kind", "clock", "strategy", "prog", "cmds")},
+                           "impl_observation": {k: obs[i].get(k) for k in ("snaps", "ntfs", "alive", "notes", "error")},
+                           "model_view": coq_view(cases[i], obs[i]) if want != 4 else representable(obs[i]),
+                           "relation": "Sim.Lifecycle.lcase_code", "other_disagreeing_cases": len(idx) - 1},
+                          found_input=False)
+        break
+    for i, okay in allowed.items():
+        if not okay and not run.violations:
+            sc = scs[i]
+            run.violation(f"overlap:{sc['name']}:outcome-not-allowed-by-M2",
+                          f"{sc['name']}: the quiescent outcome of {sc['cmd']} overlapping the run thread at {sc['wpc']} is not reachable in Sim/Overlap.v",
+                          {"scenario": sc, "impl_observation": {k: sobs[i].get(k) for k in ("snaps", "ntfs", "held_state", "gates", "alive")},
+                           "relation": "Sim.Overlap.overlap_allows"}, found_input=False)
+    if not proofs_ok and not run.violations:
+        run.violation("proof-broken", f"a {PID} proof obligation no longer checks: " + getattr(run, "proof_log", "")[-800:],
+                      {"theorems": run.cov.get("theorems")}, found_input=False)
+    return run.finish()
+
+
+def replay(path: str) -> int:
+    body = json.loads(Path(path).read_text())
+    case = body.get("case") or body.get("scenario")
+    o = run_impl([case], 1)[0]
+    bad = overlap_oracle(case, o) if case.get("kind") == "overlap" else oracle(case, o)[0]
+    print(json.dumps({"violated": bad, "snaps": o.get("snaps"), "ntfs": o.get("ntfs")}, indent=1))
+    return 1 if bad else 0
 
 
 if __name__ == "__main__":
